@@ -29,7 +29,7 @@ CloneViol(ev) ==
           \cup V(ev.cloneBones = ev.srcBones, "SameBoneNames")
           \cup V(ev.bonesExist, "BonesExistInDestination")
           \cup V(ev.srcAfter = ev.srcBefore, "SourceUntouched")
-          \cup V(ev.reloadHasClone, "DestinationReloadsWithClone")
+          \cup V(ev.reloadHasClone, "DestinationReloadsWithClone") \cup V(ev.reloadSame, "ReloadedCloneIsTheClone")
           \cup V(ev.geomEqual, "IdenticalGeometry"))
 Clauses(ev) ==
     CASE ev.e = "copy-step" -> StepViol(ev)
